@@ -9,6 +9,20 @@
  * output line: P <uid> <havedir> <now> <files in readdir order: pathhex:datahex:mtime:atime> <events>
  *                <fd1 hex> <fd2 hex> <exit code> <maildir afterwards: pathhex:datahex,…> <chdir calls>
  *
+ *
+ * session 4: failing system calls.  A 5th stdin field <faults> = A;G;U;N  ("-" = none in each part):
+ *   A = pathhex.pathhex…  stat() of these paths fails in maildir.c append()      (start-up scan)
+ *   G = pathhex.pathhex…  stat() of these paths fails in getlist()
+ *   U = ordinals (0.2.…)  these unlink() calls of pop3_quit fail (counted from 0 in call order)
+ *   N = ordinals          these rename() calls of pop3_quit fail
+ * and two more event kinds:  o  (the next open_read() fails)   r<k>  (read number k, counted from 0, of the next
+ * message opened successfully fails).  errno cycles through EIO, EACCES, ENOMEM.  A case with a <faults> field or
+ * such events is printed as an F line:  F <uid> <havedir> <now> <files> <events> <faults> <fd1> <fd2> <code> <after> <chdirs>
+ *
+ * Big messages (session 4): a file whose <datahex> is  z<size>  is created sparse (ftruncate to <size> bytes, nothing
+ * written); files longer than 64 KiB are reported as z<size> instead of their contents. A case with such a file is
+ * printed as a Z line (same fields as a P line).
+ *
  * prioq.c driven directly (the heap getlist() sorts the maildir with):
  * stdin case:  H <ops>      ops = comma list of  i<dt> (prioq_insert, ids 0,1,2,…)  |  d (prioq_min + prioq_delmin)
  * output line: H <ops> <removed by the d ops: dt:id | e (heap was empty)> <array afterwards: dt:id,…> <full drain: dt:id,…>
@@ -23,6 +37,21 @@
 #include <errno.h>
 
 static void h19_exit(int c);
+/* failing system calls (session 4): maildir.c is compiled here too, so that its stat() can be made to fail */
+static int h_stat_scan(const char *p, struct stat *st);
+static int h_stat_list(const char *p, struct stat *st);
+static int h_open_read(const char *fn);
+static ssize_t h_read(int fd, void *buf, size_t len);
+static int h_unlink(const char *p);
+extern int h_rename(const char *a, const char *b);
+#define stat(p,s) h_stat_scan(p,s)
+#include "maildir.c"
+#undef stat
+#define stat(p,s) h_stat_list(p,s)
+#define open_read h_open_read
+#define read h_read
+#define unlink h_unlink
+#define rename h_rename
 #define _exit(x) h19_exit(x)
 #define main pop3d_main
 #define puts pop3d_puts
@@ -30,6 +59,11 @@ static void h19_exit(int c);
 #undef main
 #undef _exit
 #undef puts
+#undef stat
+#undef open_read
+#undef read
+#undef unlink
+#undef rename
 
 #define NOW 1000000000L
 
@@ -39,6 +73,7 @@ static event evs[256]; static int nev, ev_i; static size_t ev_pos;
 static hbuf out1, out2;
 static int cur_uid, n_chdir, exitcode;
 static jmp_buf jb19;
+static int arm_o, arm_r = -1;
 
 static void h19_exit(int c) { exitcode = c; longjmp(jb19, 1); }
 
@@ -51,6 +86,8 @@ ssize_t timeoutread(int t, int fd, char *buf, size_t len) {
     if (ev_i >= nev) return 0;
     event *e = &evs[ev_i];
     if (e->kind == 'v') { char pth[600]; memcpy(pth, e->p, e->n); pth[e->n] = 0; unlink(pth); ev_i++; continue; }
+    if (e->kind == 'o') { arm_o = 1; ev_i++; continue; }
+    if (e->kind == 'r') { arm_r = (int)e->n; ev_i++; continue; }
     size_t k = e->n - ev_pos;
     if (k == 0) { ev_i++; ev_pos = 0; continue; }
     if (k > len) k = len;
@@ -63,8 +100,57 @@ ssize_t timeoutwrite(int t, int fd, const void *buf, size_t len) {
   hbuf_add(fd == 2 ? &out2 : &out1, buf, len); return len;
 }
 
+/* ---- failing system calls ---- */
+static struct { char a[16][300]; int na; char g[16][300]; int ng; uint64_t u, n; int on; } flt;
+static int rd_died, rd_active, rd_k, rd_no, msg_fd, n_unlink, n_rename, errno_i;
+static int n_fault_hit[6];      /* a g o r u n : faults that really happened (whole process) */
+static int next_errno(void) { static const int e[3] = { EIO, EACCES, ENOMEM }; return e[errno_i++ % 3]; }
+static int in_set(char set[][300], int n, const char *p) { for (int i = 0; i < n; i++) if (!strcmp(set[i], p)) return 1; return 0; }
+static int h_stat_scan(const char *p, struct stat *st) {
+  if (strncmp(p, "tmp/", 4) && in_set(flt.a, flt.na, p)) { n_fault_hit[0]++; errno = next_errno(); return -1; }
+  return (stat)(p, st);
+}
+static int h_stat_list(const char *p, struct stat *st) {
+  if (in_set(flt.g, flt.ng, p)) { n_fault_hit[1]++; errno = next_errno(); return -1; }
+  return (stat)(p, st);
+}
+static int h_open_read(const char *fn) {
+  if (arm_o) { arm_o = 0; n_fault_hit[2]++; errno = next_errno(); return -1; }
+  int fd = open(fn, O_RDONLY | O_NDELAY);
+  if (fd >= 0) { msg_fd = fd; rd_active = arm_r >= 0; rd_k = arm_r; rd_no = 0; arm_r = -1; }
+  return fd;
+}
+static ssize_t h_read(int fd, void *buf, size_t len) {
+  if (fd == msg_fd && rd_active) {
+    if (rd_no == rd_k) { rd_active = 0; rd_died = 1; n_fault_hit[3]++; errno = next_errno(); return -1; }
+    rd_no++;
+  }
+  return (read)(fd, buf, len);
+}
+static int h_unlink(const char *p) {
+  int k = n_unlink++;
+  if (k < 64 && ((flt.u >> k) & 1)) { n_fault_hit[4]++; errno = next_errno(); return -1; }
+  return (unlink)(p);
+}
+int h_rename(const char *a, const char *b) {
+  int k = n_rename++;
+  if (k < 64 && ((flt.n >> k) & 1)) { n_fault_hit[5]++; errno = next_errno(); return -1; }
+  return (rename)(a, b);
+}
+static void flt_reset(void) { memset(&flt, 0, sizeof flt); }
+static void flt_path(char set[][300], int *n, const char *p) { if (*n < 16) snprintf(set[(*n)++], 300, "%s", p); }
+static void flt_print_paths(char set[][300], int n) {
+  if (!n) fputc('-', h_out);
+  for (int i = 0; i < n; i++) { if (i) fputc('.', h_out); h_hex((unsigned char *)set[i], strlen(set[i])); }
+}
+static void flt_print_mask(uint64_t m) {
+  int first = 1;
+  if (!m) fputc('-', h_out);
+  for (int k = 0; k < 64; k++) if ((m >> k) & 1) { fprintf(h_out, "%s%d", first ? "" : ".", k); first = 0; }
+}
+
 /* ---- the maildir on disk ---- */
-typedef struct { char path[300]; unsigned char *data; size_t n; long mage, aage; } mfile;
+typedef struct { char path[300]; unsigned char *data; size_t n; long mage, aage; long long sparse; } mfile;
 static char base[200], md[260];
 
 static void rm_tree(void) {
@@ -94,7 +180,8 @@ static void mk_tree(mfile *f, int nf) {
     snprintf(p, sizeof p, "%s/%s", md, f[i].path);
     int fd = open(p, O_WRONLY | O_CREAT | O_TRUNC, 0600);
     if (fd < 0) { fprintf(stderr, "cannot create %s\n", p); exit(3); }
-    if (f[i].n && write(fd, f[i].data, f[i].n) != (ssize_t)f[i].n) exit(3);
+    if (f[i].sparse) { if (ftruncate(fd, (off_t)f[i].sparse) != 0) { fprintf(stderr, "cannot make a sparse file of %lld bytes\n", f[i].sparse); exit(3); } }
+    else if (f[i].n && write(fd, f[i].data, f[i].n) != (ssize_t)f[i].n) exit(3);
     close(fd);
     struct timespec ts[2] = { { NOW - f[i].aage, 0 }, { NOW - f[i].mage, 0 } };
     utimensat(AT_FDCWD, p, ts, 0);
@@ -126,17 +213,25 @@ static int scan_tree(pent *out, int max, int sorted) {
 static void emit_file(const char *rel, int withtimes) {
   char p[900]; snprintf(p, sizeof p, "%s/%s", md, rel);
   struct stat st; static unsigned char buf[1 << 16]; size_t n = 0;
-  int fd = open(p, O_RDONLY | O_NOATIME);
+  int fd = open(p, O_RDONLY | O_NOATIME), big = 0;
   if (fd < 0) fd = open(p, O_RDONLY);
-  if (fd >= 0) { ssize_t r; while ((r = read(fd, buf + n, sizeof buf - n)) > 0) n += r; fstat(fd, &st); close(fd); }
-  h_hex((const unsigned char *)rel, strlen(rel)); fputc(':', h_out); h_hex(buf, n);
+  if (fd >= 0) {
+    fstat(fd, &st); big = st.st_size > (off_t)sizeof buf;
+    if (!big) { ssize_t r; while ((r = read(fd, buf + n, sizeof buf - n)) > 0) n += r; fstat(fd, &st); }
+    close(fd);
+  }
+  h_hex((const unsigned char *)rel, strlen(rel)); fputc(':', h_out);
+  if (big) fprintf(h_out, "z%lld", (long long)st.st_size); else h_hex(buf, n);
   if (withtimes) fprintf(h_out, ":%ld:%ld", (long)st.st_mtime, (long)st.st_atime);
 }
 
 static void one(int uid, int havedir, mfile *f, int nf) {
   static pent ents[256];
   rm_tree(); mk_tree(f, nf);
-  fprintf(h_out, "P %d %d %ld ", uid, havedir, NOW);
+  int isf = flt.on;
+  for (int i = 0; i < nev; i++) if (evs[i].kind == 'o' || evs[i].kind == 'r') isf = 1;
+  int isz = 0; for (int i = 0; i < nf; i++) if (f[i].sparse) isz = 1;
+  fprintf(h_out, "%c %d %d %ld ", isf ? 'F' : isz ? 'Z' : 'P', uid, havedir, NOW);
   int n = scan_tree(ents, 256, 0);
   if (!n) fputc('-', h_out);
   for (int i = 0; i < n; i++) { if (i) fputc(',', h_out); emit_file(ents[i].path, 1); }
@@ -144,8 +239,16 @@ static void one(int uid, int havedir, mfile *f, int nf) {
   if (!nev) fputc('-', h_out);
   for (int i = 0; i < nev; i++) {
     if (i) fputc(',', h_out);
-    fputc(evs[i].kind, h_out); h_hex(evs[i].p, evs[i].n);
+    fputc(evs[i].kind, h_out);
+    if (evs[i].kind == 'o') continue;
+    if (evs[i].kind == 'r') { fprintf(h_out, "%zu", evs[i].n); continue; }
+    h_hex(evs[i].p, evs[i].n);
   }
+  if (isf) {
+    fputc(' ', h_out); flt_print_paths(flt.a, flt.na); fputc(';', h_out); flt_print_paths(flt.g, flt.ng);
+    fputc(';', h_out); flt_print_mask(flt.u); fputc(';', h_out); flt_print_mask(flt.n);
+  }
+  arm_o = 0; arm_r = -1; rd_active = 0; rd_died = 0; msg_fd = -1; n_unlink = 0; n_rename = 0;
   /* reset what the program dirties */
   ssin.p = 0; ssin.n = sizeof ssinbuf; ssout.p = 0; sserr.p = 0;
   last = 0; numm = 0; if (m) { free(m); m = 0; }
@@ -155,6 +258,8 @@ static void one(int uid, int havedir, mfile *f, int nf) {
   char *argv[3] = { "qmail-pop3d", havedir == 1 ? md : havedir == 2 ? 0 : nodir, 0 };
   if (setjmp(jb19) == 0) pop3d_main(argv[1] ? 2 : 1, argv);
   syscall(SYS_chdir, base);
+  if (rd_died && msg_fd >= 0) close(msg_fd);
+  msg_fd = -1; rd_died = 0;     /* blast() dies on a read error without closing */
   fputc(' ', h_out); h_hex(out1.p, out1.n); fputc(' ', h_out); h_hex(out2.p, out2.n);
   fprintf(h_out, " %d ", exitcode);
   n = scan_tree(ents, 256, 1);
@@ -209,12 +314,13 @@ static unsigned char *keep(const void *p, size_t n) { unsigned char *r = arena +
 static void ev_reset(void) { nev = 0; arena_n = 0; }
 static void ev_data(const char *s, size_t n) { if (nev < 250) { evs[nev].kind = 'd'; evs[nev].p = keep(s, n); evs[nev].n = n; nev++; } }
 static void ev_line(const char *s) { char b[600]; int n = snprintf(b, sizeof b, "%s\r\n", s); ev_data(b, n); }
+static void ev_arm(char kind, int k) { if (nev < 250) { evs[nev].kind = kind; evs[nev].p = 0; evs[nev].n = (size_t)k; nev++; } }
 static void ev_vanish(const char *path) { if (nev < 250) { evs[nev].kind = 'v'; evs[nev].p = keep(path, strlen(path)); evs[nev].n = strlen(path); nev++; } }
 
 static void mf(mfile *f, const char *path, const char *data, long n, long mage, long aage) {
   snprintf(f->path, sizeof f->path, "%s", path);
   if (n < 0) n = strlen(data);
-  f->data = keep(data, n); f->n = n; f->mage = mage; f->aage = aage;
+  f->data = keep(data, n); f->n = n; f->mage = mage; f->aage = aage; f->sparse = 0;
 }
 
 #define HUGE1 "18446744073709551617"
@@ -271,6 +377,21 @@ static int population(int k, mfile *f, int *nmsg) {
     mf(&f[n++], "cur/x:1:2,RS", ".\n", 2, 60, 60);
     mf(&f[n++], "new/y", "\n\n\n", 3, 60, 60);
     *nmsg = 3; break;
+  case 5: {   /* messages longer than the 1024-byte buffers of ssmsg and ssout; a line longer than 1024 and one longer than 8192 */
+    static char b1[4000], b2[12000]; static size_t n1, n2;
+    if (!n1) {
+      n1 += sprintf(b1 + n1, "Subject: big one\nX-Pad: %050d\n\n", 7);
+      for (int l = 0; l < 44; l++) n1 += sprintf(b1 + n1, "%sline %02d %.*s\n", l % 7 == 3 ? "." : "", l, 20 + (l * 13) % 60, "abcdefghijklmnopqrstuvwxyzabcdefghijklmnopqrstuvwxyzabcdefghijklmnopqrstuvwxyz0123456789");
+      n2 += sprintf(b2 + n2, "H: big two\n\n");
+      for (int i = 0; i < 1500; i++) b2[n2++] = 'a' + i % 26;
+      b2[n2++] = '\n'; n2 += sprintf(b2 + n2, ".short\n");
+      for (int i = 0; i < 9300; i++) b2[n2++] = i ? 'A' + i % 26 : '.';
+      b2[n2++] = '\n'; n2 += sprintf(b2 + n2, ".tail without newline");
+    }
+    mf(&f[n++], "new/big1", b1, (long)n1, 300, 300);
+    mf(&f[n++], "cur/big2:2,S", b2, (long)n2, 200, 200);
+    mf(&f[n++], "new/small", M1, -1, 100, 100);
+    *nmsg = 3; break; }
   }
   return n;
 }
@@ -316,7 +437,22 @@ static void stdin_cases(void) {
     uid = atoi(tok);
     tok = strtok(0, " \n"); if (!tok) continue; havedir = atoi(tok);
     fs = strtok(0, " \n"); es = strtok(0, " \n"); if (!fs || !es) continue;
-    ev_reset();
+    char *fls = strtok(0, " \n");
+    ev_reset(); flt_reset();
+    if (fls) {
+      flt.on = 1;
+      char *part[4] = { 0, 0, 0, 0 }; int np = 0;
+      for (char *p = fls; p && np < 4; ) { char *e = strchr(p, ';'); if (e) *e = 0; part[np++] = p; p = e ? e + 1 : 0; }
+      for (int k = 0; k < np; k++) {
+        if (!strcmp(part[k], "-")) continue;
+        for (char *p = part[k]; p && *p; ) {
+          char *e = strchr(p, '.'); if (e) *e = 0;
+          if (k < 2) { int pn = unhex(p, strlen(p), tmp); tmp[pn] = 0; if (k == 0) flt_path(flt.a, &flt.na, (char *)tmp); else flt_path(flt.g, &flt.ng, (char *)tmp); }
+          else { int o = atoi(p); if (o >= 0 && o < 64) { if (k == 2) flt.u |= 1ull << o; else flt.n |= 1ull << o; } }
+          p = e ? e + 1 : 0;
+        }
+      }
+    }
     int nf = 0;
     if (strcmp(fs, "-")) {
       for (char *p = fs; p && *p && nf < 64; ) {
@@ -325,8 +461,10 @@ static void stdin_cases(void) {
         if (c3) {
           int pn = unhex(p, c1 - p, tmp); tmp[pn] = 0;
           char path[300]; snprintf(path, sizeof path, "%s", (char *)tmp);
+          if (c1[1] == 'z') { mf(&f[nf], path, "", 0, atol(c2 + 1), atol(c3 + 1)); f[nf++].sparse = atoll(c1 + 2); }
+          else {
           int dn = unhex(c1 + 1, c2 - c1 - 1, tmp);
-          mf(&f[nf++], path, (char *)tmp, dn, atol(c2 + 1), atol(c3 + 1));
+          mf(&f[nf++], path, (char *)tmp, dn, atol(c2 + 1), atol(c3 + 1)); }
         }
         p = e ? e + 1 : 0;
       }
@@ -334,12 +472,15 @@ static void stdin_cases(void) {
     if (strcmp(es, "-")) {
       for (char *p = es; p && *p; ) {
         char *e = strchr(p, ','); if (e) *e = 0;
+        if (*p == 'o') { ev_arm('o', 0); p = e ? e + 1 : 0; continue; }
+        if (*p == 'r') { ev_arm('r', atoi(p + 1)); p = e ? e + 1 : 0; continue; }
         int n = unhex(p + 1, strlen(p + 1), tmp);
         if (*p == 'v') { tmp[n] = 0; ev_vanish((char *)tmp); } else ev_data((char *)tmp, n);
         p = e ? e + 1 : 0;
       }
     }
     one(uid, havedir, f, nf);
+    flt_reset();
   }
 }
 
@@ -483,6 +624,112 @@ int main(int argc, char **argv) {
         }
         heap_case(ops, n);
       }
+    }
+
+    /* (5) failing system calls (session 4) */
+    {
+      static const int rk[] = { 0, 1, 2, 3, 4, 5, 9, 10, 11, 12, 40 };
+      static const char *vf[] = { "RETR %d", "TOP %d 0", "TOP %d 1", "TOP %d 3", "TOP %d 30" };
+      /* (5a) the next open fails / read number k of the next message fails: every message of populations 1-5 */
+      for (int pk = 1; pk <= 5; pk++) {
+        int nmsg; ev_reset(); population(pk, f, &nmsg);
+        for (int mi = 1; mi <= nmsg; mi++)
+          for (int v = 0; v < 5; v++)
+            for (int a = -1; a < (int)(sizeof rk / sizeof rk[0]); a++, id++) {
+              if ((int)(id % nshards) != shard) continue;
+              ev_reset(); flt_reset(); int nf = population(pk, f, &nmsg);
+              char cmd[100]; snprintf(cmd, sizeof cmd, vf[v], mi);
+              if (a < 0) ev_arm('o', 0); else ev_arm('r', rk[a]);
+              if (a == 3) ev_arm('o', 0);           /* both armed: the open fails, the read fault waits for the next message */
+              ev_line(cmd); ev_line("LIST"); ev_line(cmd); ev_line("DELE 1"); ev_line("QUIT");
+              one(1000, 1, f, nf);
+            }
+      }
+      /* (5b) unlink / rename failing at QUIT */
+      for (int pk = 1; pk <= 5; pk++) {
+        int nmsg;
+        for (int dp = 0; dp < 5; dp++)
+          for (unsigned um = 0; um < 6; um++)
+            for (unsigned nm = 0; nm < 4; nm++, id++) {
+              if ((int)(id % nshards) != shard) continue;
+              if (!um && !nm) continue;
+              ev_reset(); flt_reset(); int nf = population(pk, f, &nmsg);
+              flt.on = 1; flt.u = um; flt.n = nm;
+              char cmd[40];
+              if (dp == 1 || dp == 3) ev_line("DELE 1");
+              if (dp == 2 || dp == 3) ev_line("DELE 2");
+              if (dp == 4) for (int i = 1; i <= nmsg; i++) { snprintf(cmd, sizeof cmd, "DELE %d", i); ev_line(cmd); }
+              if (um == 5 && nf) ev_vanish(f[0].path);
+              ev_line("QUIT");
+              one(1000, 1, f, nf);
+            }
+      }
+      /* (5c) stat failing at start-up: in the scan, in getlist, for each file */
+      for (int pk = 1; pk <= 5; pk++) {
+        int nmsg; ev_reset(); int nf0 = population(pk, f, &nmsg);
+        for (int fi = 0; fi < nf0; fi++)
+          for (int w = 0; w < 3; w++, id++) {
+            if ((int)(id % nshards) != shard) continue;
+            ev_reset(); flt_reset(); int nf = population(pk, f, &nmsg);
+            flt.on = 1;
+            if (w != 1) flt_path(flt.a, &flt.na, f[fi].path);
+            if (w != 0) flt_path(flt.g, &flt.ng, f[(fi + (w == 2)) % nf].path);
+            ev_line("STAT"); ev_line("LIST"); ev_line("UIDL"); ev_line("RETR 1"); ev_line("DELE 1"); ev_line("QUIT");
+            one(1000, 1, f, nf);
+          }
+      }
+      /* (5d) seeded random sessions with faults of every kind */
+      h_seed(seed * 7777777ull + 13 + shard);
+      for (int r = 0; r < nrandom / 4; r++) {
+        if ((r % nshards) != shard) continue;
+        int nmsg; ev_reset(); flt_reset();
+        int nf = h_below(3) ? random_population(f, &nmsg) : population(1 + h_below(5), f, &nmsg);
+        fill_alpha(nmsg ? nmsg : 1);
+        flt.on = 1;
+        if (nf && h_below(4) == 0) flt_path(flt.a, &flt.na, f[h_below(nf)].path);
+        if (nf && h_below(6) == 0) flt_path(flt.g, &flt.ng, f[h_below(nf)].path);
+        if (h_below(2)) flt.u = h_below(8);
+        if (h_below(2)) flt.n = h_below(8);
+        int len = 1 + h_below(9);
+        for (int i = 0; i < len; i++) {
+          char cmd[100];
+          if (h_below(3) == 0) { if (h_below(4) == 0) ev_arm('o', 0); else ev_arm('r', h_below(4) ? h_below(4) : h_below(14)); }
+          if (nmsg > 0 && h_below(2)) {
+            static const char *vb[] = { "DELE %u", "RETR %u", "TOP %u 1", "TOP %u 0", "RETR %u", "TOP %u 7", "LIST %u" };
+            snprintf(cmd, sizeof cmd, vb[h_below(7)], 1 + h_below(nmsg));
+          } else snprintf(cmd, sizeof cmd, "%s", alpha[i == len - 1 && h_below(2) ? 0 : 1 + h_below(NALPHA - 1)]);
+          ev_line(cmd);
+          if (nf && h_below(10) == 0) ev_vanish(f[h_below(nf)].path);
+        }
+        if (h_below(3)) ev_line("QUIT");
+        one(1000, 1, f, nf);
+      }
+      flt_reset();
+    }
+
+    /* (6) big messages (sparse files, only stat()ed): sizes around 2^31 and 2^32, and a total above 2^32 from smaller files */
+    {
+      static const long long zs[] = { 2147483647LL, 2147483648LL, 4294967295LL, 4294967296LL, 4294968530LL, 8589934597LL, 70000LL };
+      static const char *sess[][8] = {
+        { "LIST", "LIST 1", "LIST 2", "STAT", "QUIT", 0 },
+        { "STAT", "DELE 2", "STAT", "LIST", "UIDL", "QUIT", 0 },
+        { "LIST 2", "DELE 1", "LIST", "STAT", 0 } };
+      for (int zi = 0; zi < 8; zi++)
+        for (int si = 0; si < 3; si++, id++) {
+          if ((int)(id % nshards) != shard) continue;
+          ev_reset(); flt_reset();
+          int nf = 0;
+          if (zi < 7) {
+            mf(&f[nf], "new/1000.big.host", "", 0, 300, 300); f[nf++].sparse = zs[zi];
+            mf(&f[nf++], "cur/0999.a.host:2,S", M1, -1, 400, 400);
+          } else {            /* three files of 2^31 bytes: each fits 32 bits, the total does not */
+            mf(&f[nf], "new/1.x", "", 0, 300, 300); f[nf++].sparse = 2147483648LL;
+            mf(&f[nf], "new/2.x", "", 0, 200, 200); f[nf++].sparse = 2147483648LL;
+            mf(&f[nf], "cur/3.x:2,", "", 0, 100, 100); f[nf++].sparse = 2147483648LL;
+          }
+          for (int k = 0; sess[si][k]; k++) ev_line(sess[si][k]);
+          one(1000, 1, f, nf);
+        }
     }
   }
 done:
